@@ -1,5 +1,6 @@
 import Gimli.Lemmas.Unwind
 import Gimli.Lemmas.Cfi
+import Gimli.Lemmas.CfiDecode
 /-!
 # C06 — Unwind table rows equal DWARF call-frame semantics
 
@@ -179,6 +180,59 @@ theorem spec_errors (p : Params) (s : State) (i : Instr) (e : Err) (h : step p s
     IsInvalid e :=
   step_error_invalid h
 
+/-- **The only errors of an unwind**: if the Model's run ends with an error, that error is one of
+the four validity errors of the semantics, one of the two storage-limit errors, or the decode
+error that ends the CIE's / the FDE's instruction stream — nothing else, and in each case the
+Spec run ends with the same error (`unwind_refines`). -/
+theorem unwind_errors (g : Cfg) (hsz : 1 ≤ g.addressSize ∧ g.addressSize ≤ 8) (hR : g.R.fits 1)
+    (cie fde : List Instr) (cieBad fdeBad : Option Err) (initial len : Nat) (e : Err)
+    (h : (unwind g cie (tailOf cieBad) fde (tailOf fdeBad) initial len).2 = .err e) :
+    IsInvalid e ∨ e = .rStackFull ∨ e = .rTooManyRegisterRules ∨ cieBad = some e ∨ fdeBad = some e := by
+  have hfin := (unwind_refines_main g hsz hR cie fde cieBad fdeBad initial len).2
+  rw [h] at hfin
+  cases ht : (table g.params g.R g.N cie cieBad fde fdeBad initial len).2 with
+  | ok u => rw [ht] at hfin; simp [FinalRel] at hfin
+  | error e' =>
+    rw [ht] at hfin
+    simp only [FinalRel] at hfin
+    subst hfin
+    rcases table_error_kinds _ _ _ _ _ _ _ _ _ _ ht with (h1 | h1 | h1) | h1 | h1
+    · exact Or.inl h1
+    · exact Or.inr (Or.inl h1)
+    · exact Or.inr (Or.inr (Or.inl h1))
+    · exact Or.inr (Or.inr (Or.inr (Or.inl h1)))
+    · exact Or.inr (Or.inr (Or.inr (Or.inr h1)))
+
+/-- **More storage never changes a table that fits**: if the unwind completes with capacities
+`(R, N)`, it also completes with any capacities at least as large (in particular with the growable
+`Vec` storage, `none`), and both row lists represent the same rows of the semantics. -/
+theorem storage_monotone (g : Cfg) (R' N' : Cap) (hsz : 1 ≤ g.addressSize ∧ g.addressSize ≤ 8)
+    (hR1 : g.R.fits 1) (hR : CapLe g.R R') (hN : CapLe g.N N')
+    (cie fde : List Instr) (cieBad fdeBad : Option Err) (initial len : Nat)
+    (hok : (unwind g cie (tailOf cieBad) fde (tailOf fdeBad) initial len).2 = .ok ()) :
+    (unwind { g with R := R', N := N' } cie (tailOf cieBad) fde (tailOf fdeBad) initial len).2 = .ok () ∧
+    ∃ rows : List TableRow,
+      RowsRel (unwind g cie (tailOf cieBad) fde (tailOf fdeBad) initial len).1 rows ∧
+      RowsRel (unwind { g with R := R', N := N' } cie (tailOf cieBad) fde (tailOf fdeBad) initial len).1 rows :=
+  storage_monotone_main g R' N' hsz hR1 hR hN cie fde cieBad fdeBad initial len hok
+
+example : CapLe (some 4) (some 8) := CapLe.some (by decide)
+example : CapLe (some 192) none := CapLe.none _
+
+/-! ### the Spec means what the standard says (sanity of the reference semantics) -/
+
+/-- `DW_CFA_remember_state` followed by `DW_CFA_restore_state` is the identity -/
+theorem spec_remember_restore (p : Params) (s : State) :
+    ∃ s1, step p s .rememberState = .ok (s1, none) ∧ step p s1 .restoreState = .ok (s, none) :=
+  remember_restore p s
+
+/-- `DW_CFA_restore r` in an FDE puts column `r` back to what the CIE's initial instructions
+left there and touches nothing else -/
+theorem spec_restore_is_initial (p : Params) (s : State) (im : RegMap) (r : Reg) (h : s.init = some im) :
+    ∃ s1, step p s (.restore r) = .ok (s1, none) ∧ s1.cur.regs r = im r ∧
+      (∀ x, x ≠ r → s1.cur.regs x = s.cur.regs x) ∧ s1.cur.cfa = s.cur.cfa :=
+  restore_is_initial p s im r h
+
 /-! ## 2. the `initial_rule` optimisation -/
 
 /-- **The 0/1-rule shortcut and the saved `stack[0]` row agree with "the map after the CIE
@@ -289,6 +343,44 @@ theorem decode_all_total (c : DecodeCfg) (base : Nat) (bs : Bytes)
     (hsz : 1 ≤ c.params.addressSize ∧ c.params.addressSize ≤ 8) :
     (decodeAll c base bs).2.Normal ∧ (decodeAll c base bs).1.length ≤ bs.length :=
   ⟨decodeAll_normal c base bs hsz, decodeFuel_length c base bs.length bs.length bs⟩
+
+/-! ## 6. instruction decoding against the encoding tables of the standard -/
+
+/-- **Every standard encoding is decoded to the instruction it denotes**, with exact consumption:
+if `bs` encodes `i` according to the opcode/operand tables of DWARF §6.4.2/§7.24 (`Spec.Cfi.Encodes`:
+the three primary opcodes, every extended opcode with unsigned / signed LEB128, fixed-size, block
+and register operands — any LEB128 padding up to 10 bytes — `GNU_args_size`, and
+`AARCH64_negate_ra_state` for an AArch64 consumer), then `CallFrameInstruction::parse` on `bs`
+followed by anything returns `i` and leaves exactly what followed.
+*Partial*: `DW_CFA_set_loc` is covered for the plain address operand only (`address_encoding =
+None`: CIE programs, `.debug_frame`, `.eh_frame` CIEs without `R`); its operand under a
+`DW_EH_PE` pointer encoding is C05's `parse_encoded_pointer` and is tied differentially. -/
+theorem decode_complete_partial (m : Mode) (e : Endian) (asz : Nat) (aarch64 : Bool) (p : PtrParams)
+    (i : Instr) (bs : Bytes) (h : Spec.Cfi.Encodes e asz aarch64 i bs) (pos : Nat) (rest : Bytes) :
+    parse (Spec.Cfi.cfgOf m e asz aarch64 p) pos (bs ++ rest) = .ok (i, rest) :=
+  Spec.Cfi.parse_encodes h pos rest
+
+/-- **Whatever `parse` accepts is an encoding from the tables**: if `CallFrameInstruction::parse`
+(no `DW_EH_PE` pointer encoding in force) returns `(i, rest)`, then the consumed prefix is an
+encoding of `i` per DWARF §6.4.2/§7.24 — opcode, operand kinds, LEB128 well-formedness and range,
+register numbers ≤ 0xffff, block lengths, address size ∈ {1,2,4,8} for `set_loc`, AArch64 vendor
+for `negate_ra_state`.  Together with `decode_complete_partial`: `parse` accepts exactly the
+encodings of the tables and decodes each to the instruction it denotes.
+*Partial* for the same single reason as `decode_complete_partial`. -/
+theorem decode_sound_partial (m : Mode) (e : Endian) (asz : Nat) (aarch64 : Bool) (p : PtrParams) (pos : Nat)
+    (bs : Bytes) (i : Instr) (rest : Bytes)
+    (h : parse (Spec.Cfi.cfgOf m e asz aarch64 p) pos bs = .ok (i, rest)) :
+    ∃ pre, bs = pre ++ rest ∧ Spec.Cfi.Encodes e asz aarch64 i pre :=
+  Spec.Cfi.parse_sound h
+
+/-- the hypothesis is satisfiable: `DW_CFA_def_cfa r7, 8` and a padded `DW_CFA_offset_extended` -/
+example : Spec.Cfi.Encodes .little 8 false (.defCfa 7 8) [0x0c, 0x07, 0x08] :=
+  .defCfa 7 8 [0x07] [0x08] (by unfold Spec.Cfi.RegEnc Spec.Cfi.ULeb; decide) (by unfold Spec.Cfi.ULeb; decide)
+example : Spec.Cfi.Encodes .little 8 false (.defCfaOffsetSf (-2)) [0x13, 0x7e] :=
+  .defCfaOffsetSf (-2) [0x7e] (by unfold Spec.Cfi.SLeb; decide)
+example : Spec.Cfi.Encodes .little 8 false (.offset 300 2) [0x05, 0xac, 0x02, 0x82, 0x00] :=
+  .offsetExtended 300 2 [0xac, 0x02] [0x82, 0x00] (by unfold Spec.Cfi.RegEnc Spec.Cfi.ULeb; decide)
+    (by unfold Spec.Cfi.ULeb; decide)
 
 /-! ## non-vacuity: the hypotheses hold for gimli's default configuration, and every outcome
 class is reachable -/
